@@ -274,23 +274,27 @@ def vectors(seed):
 
 # ------------------------------------------------------------------ oracle
 def check_positions(case, value_size):
-    """positions pairwise disjoint and inside the map -> list of problems"""
-    probs = []
+    """positions pairwise disjoint and inside the map
+    -> (list of problems, indices of the slots involved)"""
+    probs, involved = [], set()
     iv = []
-    for s in case.slots:
+    for i, s in enumerate(case.slots):
         if not isinstance(s.pos, int):
             probs.append(f"{s.oname}.{s.name}: no position")
+            involved.add(i)
             continue
         if s.pos < 0 or s.pos + s.size > value_size:
             probs.append(f"{s.oname}.{s.name} [{s.pos},{s.pos + s.size}) "
                          f"outside the map of {value_size} bytes")
-        iv.append((s.pos, s.pos + s.size, s))
-    iv.sort(key=lambda t: (t[0], t[1]))
-    for (a0, a1, sa), (b0, b1, sb) in itertools.combinations(iv, 2):
+            involved.add(i)
+        iv.append((s.pos, s.pos + s.size, i, s))
+    iv.sort(key=lambda t: (t[0], t[1], t[2]))
+    for (a0, a1, ia, sa), (b0, b1, ib, sb) in itertools.combinations(iv, 2):
         if b0 < a1 and a0 < b1:
             probs.append(f"{sa.oname}.{sa.name} [{a0},{a1}) overlaps "
                          f"{sb.oname}.{sb.name} [{b0},{b1})")
-    return probs
+            involved |= {ia, ib}
+    return probs, involved
 
 
 def model_double_allocation(case):
@@ -401,7 +405,11 @@ def run_array(layout, seed, backend, res=None, variant=()):
                 value_size = mapsize
             obs.append(("positions", case.read_positions(), value_size))
             kf = None
-            probs = check_positions(case, value_size)
+            probs, involved = check_positions(case, value_size)
+            if res is not None and len(layout) == 3 and \
+                    len({p for _, p in layout}) == 3:
+                res.sample(dict(cj, positions=obs[-1][1],
+                                map_size=value_size), limit=4)
             if probs and sink:
                 kf = KF_REDECL if is_redecl_defect(case) else None
                 sink.add(cj, "positions pairwise disjoint and inside the "
@@ -457,19 +465,20 @@ def run_array(layout, seed, backend, res=None, variant=()):
                 for i, s in enumerate(case.slots):
                     v, raw = want[i]
                     where = f"{s.oname}.{s.name} ({s.fmt}, {s.place})"
+                    kfi = kf if i in involved else None
                     if not same(s.fmt, back[i], v):
-                        sink.add(cj, v, back[i], "py-py", kf=kf,
+                        sink.add(cj, v, back[i], "py-py", kf=kfi,
                                  note=f"{where}: Python read after all "
                                  f"Python writes, vector {t}")
                     if ret != 2:
                         sink.add(cj, 2, ret, "retval", kf=kf)
                     elif outs[i] != raw:
-                        sink.add(cj, raw, outs[i], "py-to-program", kf=kf,
+                        sink.add(cj, raw, outs[i], "py-to-program", kf=kfi,
                                  note=f"{where}: program read of the value "
                                  f"{v!r} written by Python, vector {t}")
                     exp = decode(s.fmt, invals[i])
                     if ret == 2 and not same(s.fmt, got[i], exp):
-                        sink.add(cj, exp, got[i], "program-to-py", kf=kf,
+                        sink.add(cj, exp, got[i], "program-to-py", kf=kfi,
                                  note=f"{where}: Python read of bytes "
                                  f"{invals[i].hex()} stored by the program, "
                                  f"vector {t}")
@@ -518,7 +527,7 @@ def run_percpu(layout, seed, backend, n_possible, n_online, schedule,
                 value_size = case.M.size
                 aff = os.sched_getaffinity(0)
             obs.append(("positions", case.read_positions(), value_size))
-            probs = check_positions(case, value_size)
+            probs, involved = check_positions(case, value_size)
             kf = None
             if probs and sink:
                 kf = KF_REDECL if is_redecl_defect(case) else None
@@ -554,7 +563,8 @@ def run_percpu(layout, seed, backend, n_possible, n_online, schedule,
                     for i, s in enumerate(case.slots):
                         if ret == 2 and outs[i] != before[i]:
                             sink.add(cj, before[i], outs[i],
-                                     "percpu-program-read", kf=kf,
+                                     "percpu-program-read",
+                                     kf=kf if i in involved else None,
                                      note=f"{s.oname}.{s.name} on CPU {cpu}")
                 if ret == 2:
                     ref[cpu] = invals
@@ -583,7 +593,7 @@ def run_percpu(layout, seed, backend, n_possible, n_online, schedule,
                         exp = decode(s.fmt, ref.get(c, zero)[i])
                         if not same(s.fmt, row[c], exp):
                             sink.add(cj, exp, row[c], "percpu-py-read",
-                                     kf=kf,
+                                     kf=kf if i in involved else None,
                                      note=f"{s.oname}.{s.name}[{c}] after "
                                      f"runs on CPUs {list(schedule[:t + 1])}")
                 obs.append(("pyread", t, table))
